@@ -261,7 +261,7 @@ def run(tier, seed):
     if tbins:
         with ThreadPoolExecutor(16) as ex:
             for (tag, k, mode), out in ex.map(ev, ejobs):
-                m = re.search(r'EVAL build=\S+ isa=\S+ units=(\d+) lines=(\d+) ok=(\d+) mismatch=(\d+) skipped_x_units=(\d+) approx_out_of_range=(\d+) no_unit=(\d+)', out)
+                m = re.search(r'EVAL build=\S+ isa=\S+ units=(\d+) lines=(\d+) ok=(\d+) mismatch=(\d+)', out)
                 if not m: problems.append('evalcheck %s produced no summary' % tag); continue
                 eval_stats[tag] = dict(units=int(m.group(1)), lines=int(m.group(2)), ok=int(m.group(3)), mismatch=int(m.group(4)))
                 if int(m.group(4)):
